@@ -26,7 +26,7 @@ ASSUMPTIONS = [
     "specifications that are affine only after cancellation (x*y - x*y, (x - x)*y, x/(y - y + 2)), divide by a constant "
     "that is exactly zero, or put a sign directly after another operator ('x = -2', 'x * -2': the tokenizer lexes '=-' "
     "as one operator) are UNSPECIFIED: rejection is accepted, a returned map must still be the right one",
-    "'provably non-affine' is decided by a non-zero exact second difference of lhs - rhs along one of 27 lines; a "
+    "'provably non-affine' is decided by a non-zero exact second difference of lhs - rhs along one of 15 lines; a "
     "non-linear specification for which every probed second difference vanishes is classed UNSPECIFIED (sound, "
     "never demands the rejection of an affine function)",
     "floating point: coefficients are compared with absolute/relative tolerance 1e-9 against exact Fractions "
@@ -271,10 +271,10 @@ VARIANTS_ALL = [(st, sp, nm) for st in ("min", "full", "leafy") for sp in (True,
 def drv_expr(c, ctx, col):
     """one constraint 'E' or 'E = E' as a string"""
     eq = ctx["eq"]
-    if ctx.get("slice") is not None:  # VERIF_SEED slice: fixed root operator and split, exactly k operators
-        op, kl = ctx["slice"]
+    if ctx.get("slice") is not None:  # VERIF_SEED slice: fixed root operator, split and right-hand leaf set
+        op, kl, leaves_r = ctx["slice"]
         k = ctx["k"]
-        lhs = (op, gen_tree(c, kl, ctx["leaves"]), gen_tree(c, k - 1 - kl, ctx["leaves"]))
+        lhs = (op, gen_tree(c, kl, ctx["leaves"]), gen_tree(c, k - 1 - kl, leaves_r))
         rhs = None
     elif eq:
         k = ctx["kmin"] + c.upto(ctx["k"] - ctx["kmin"])
@@ -399,13 +399,13 @@ def wrap_at(t, path, tag):
 def drv_unary(c, ctx, col):
     """one unary sign at any node of a tree, parenthesised '( - t )' (specified) or bare in place (specified only at
     the head of the string or directly after '('; otherwise adjacent operators, unspecified)"""
-    k = c.upto(ctx["k"])
+    k = ctx.get("kmin", 0) + c.upto(ctx["k"] - ctx.get("kmin", 0))
     tree = gen_tree(c, k, ctx["leaves"])
-    shape = c.pick(["E", "E = 2", "2 = E", "Y , E"])
+    shape = c.pick(ctx.get("shapes", ["E", "E = 2", "2 = E", "Y , E"]))
     path = c.pick(unary_positions(tree))
-    sign = c.pick(["neg", "pos"])
+    sign = c.pick(ctx.get("signs", ["neg", "pos"]))
     bare = c.flag()
-    spaced = not c.flag()
+    spaced = not c.flag() if ctx.get("spacing", True) else True
     naming = c.pick(ctx["namings"])
     toks_map, names, ms = resolve_naming(naming)
     t2 = wrap_at(tree, path, sign)
@@ -476,53 +476,62 @@ def selftest():
 def subchecks(tier, seed):
     selftest()
     subs = []
-    pool2 = small_pool(LEAVES3, LEAVES3, POOL_EXTRA)
+    quick = tier == "quick"
+    pool2 = small_pool(LEAVES3, [X, "2"] if quick else LEAVES3, POOL_EXTRA)
     pool3 = [
         (X, None), (Y, "2"), (("+", X, Y), None), (("-", Z, "1"), None), (("*", "2", X), Y), (("/", Y, "2"), "0.5"),
-        (("-", X, Y), Z), ("1", "2"), (("*", X, Y), None), (("neg", Z), None), (("+", ("var", "Z"), "0.5"), X), (("/", "1", "0"), None),
+        (("-", X, Y), Z), ("1", "2"), (("*", X, Y), None), (("neg", Z), None), (("+", Z, "0.5"), X), (("/", "1", "0"), None),
     ]
-    all_namings = list(NAMINGS)
-    if tier == "quick":
-        subs.append(Sub("expr", drv_expr, {"eq": False, "k": 2, "kmin": 0, "leaves": LEAVES6, "variants": VARIANTS_LIGHT},
-                        shard_depth=3, bounds={"max_binary_operators": 2, "leaves": "x y z 1 2 0.5", "variants": "4 (style, spacing, names) x head minus"}))
-        subs.append(Sub("expr-3", drv_expr, {"eq": False, "k": 3, "kmin": 3, "leaves": LEAVES3, "variants": VARIANTS_LIGHT[:2]},
-                        shard_depth=4, bounds={"binary_operators": 3, "leaves": "x y 2", "variants": "2 x head minus"}))
-        subs.append(Sub("expr-eq", drv_expr, {"eq": True, "k": 2, "kmin": 0, "leaves": LEAVES3, "variants": VARIANTS_LIGHT},
-                        shard_depth=4, bounds={"max_binary_operators_both_sides": 2, "leaves": "x y 2", "variants": "4 x head minus"}))
-        op, kl = OPS[seed % 4], (seed // 4) % 3
+    V = VARIANTS_LIGHT
+    six, three = "x y z 1 2 0.5", "x y 2"
+    if quick:
+        subs.append(Sub("expr", drv_expr, {"eq": False, "k": 2, "kmin": 0, "leaves": LEAVES6, "variants": V},
+                        shard_depth=3, bounds={"max_binary_operators": 2, "leaves": six, "variants": "4 (style, spacing, names) x head minus"}))
+        subs.append(Sub("expr-3", drv_expr, {"eq": False, "k": 3, "kmin": 3, "leaves": LEAVES3, "variants": V[1:2], "neg": False},
+                        shard_depth=4, bounds={"binary_operators": 3, "leaves": three, "variants": "full parentheses, spaced, names [z,y,x]"}))
+        subs.append(Sub("expr-eq", drv_expr, {"eq": True, "k": 2, "kmin": 0, "leaves": LEAVES3, "variants": V[:2]},
+                        shard_depth=4, bounds={"max_binary_operators_both_sides": 2, "leaves": three, "variants": "2 x head minus"}))
+        op, kl, lr = OPS[seed % 4], (seed // 4) % 3, LEAVES6[(seed // 12) % 6]
         subs.append(Sub("expr-seed-slice", drv_expr,
-                        {"eq": False, "k": 3, "leaves": LEAVES6, "variants": VARIANTS_LIGHT[:1], "slice": (op, kl), "neg": False},
-                        shard_depth=3, bounds={"binary_operators": 3, "leaves": "x y z 1 2 0.5", "root_operator": op, "left_operators": kl,
+                        {"eq": False, "k": 3, "leaves": LEAVES6, "variants": V[:1], "slice": (op, kl, [lr]), "neg": False},
+                        shard_depth=3, bounds={"binary_operators": 3, "leaves": six, "root_operator": op, "left_operators": kl,
+                                               "right_subtree_leaves": [lr if isinstance(lr, str) else lr[1]],
                                                "note": "VERIF_SEED-selected exhaustive slice of the thorough scope"}))
-        subs.append(Sub("forms", drv_forms, {"pool": pool2, "n": 2, "nmin": 1, "namings": ["xyz", "zyx", "ticked", "spec-categorical"],
-                                              "styles": ["min"], "values": MAP_VALUES[:3]},
-                        shard_depth=2, bounds={"constraints": "1..2", "pool": len(pool2), "forms": FORMS, "mapping_values": MAP_VALUES[:3]}))
+        subs.append(Sub("forms", drv_forms, {"pool": pool2, "n": 2, "nmin": 1, "namings": ["zyx", "spec-categorical"],
+                                              "styles": ["min"], "values": [1, -2]},
+                        shard_depth=2, bounds={"constraints": "1..2", "pool": len(pool2), "forms": FORMS, "mapping_values": [1, -2]}))
         subs.append(Sub("forms-3", drv_forms, {"pool": pool3, "n": 3, "nmin": 3, "namings": ["xyz", "spec-numeric"], "styles": ["min"],
-                                                "values": [1, -2]},
-                        shard_depth=3, bounds={"constraints": 3, "pool": len(pool3), "forms": FORMS}))
-        subs.append(Sub("namings", drv_expr, {"eq": True, "k": 1, "kmin": 0, "leaves": [X, Y, Z, "2"], "variants": VARIANTS_ALL},
-                        shard_depth=3, bounds={"max_binary_operators_both_sides": 1, "leaves": "x y z 2", "variants": "all 42 x head minus"}))
-        subs.append(Sub("unary", drv_unary, {"k": 2, "leaves": LEAVES3, "namings": ["xyz"]}, shard_depth=3,
-                        bounds={"max_binary_operators": 2, "leaves": "x y 2", "one unary sign": "every node, - and +, parenthesised and bare"}))
+                                                "values": [-2]},
+                        shard_depth=3, bounds={"constraints": 3, "pool": len(pool3), "forms": FORMS, "mapping_values": [-2]}))
+        subs.append(Sub("namings", drv_expr, {"eq": True, "k": 1, "kmin": 0, "leaves": [X, Y, Z, "2"], "variants": VARIANTS_ALL, "neg": False},
+                        shard_depth=3, bounds={"max_binary_operators_both_sides": 1, "leaves": "x y z 2", "variants": "all 42 (3 styles x 2 spacings x 7 namings)"}))
+        subs.append(Sub("unary", drv_unary, {"k": 1, "leaves": LEAVES3, "namings": ["xyz"]}, shard_depth=3,
+                        bounds={"max_binary_operators": 1, "leaves": three, "one unary sign": "every node, - and +, parenthesised and bare, 4 shapes"}))
+        subs.append(Sub("unary-2", drv_unary, {"k": 2, "kmin": 2, "leaves": LEAVES3, "namings": ["xyz"], "shapes": ["E", "2 = E"],
+                                                "signs": ["neg"], "spacing": False}, shard_depth=4,
+                        bounds={"binary_operators": 2, "leaves": three, "one unary minus": "every node, parenthesised and bare, shapes E and 2 = E"}))
         subs.append(Sub("literals", drv_literals, {"literals": LITERALS[:8]}, shard_depth=2, bounds={"literals": LITERALS[:8]}))
     else:
-        subs.append(Sub("expr", drv_expr, {"eq": False, "k": 3, "kmin": 0, "leaves": LEAVES6, "variants": VARIANTS_LIGHT},
-                        shard_depth=4, bounds={"max_binary_operators": 3, "leaves": "x y z 1 2 0.5", "variants": "4 x head minus"}))
-        subs.append(Sub("expr-4", drv_expr, {"eq": False, "k": 4, "kmin": 4, "leaves": LEAVES3, "variants": VARIANTS_LIGHT[:1]},
-                        shard_depth=5, bounds={"binary_operators": 4, "leaves": "x y 2", "variants": "1 x head minus"}))
-        subs.append(Sub("expr-eq", drv_expr, {"eq": True, "k": 3, "kmin": 0, "leaves": LEAVES3, "variants": VARIANTS_LIGHT},
-                        shard_depth=5, bounds={"max_binary_operators_both_sides": 3, "leaves": "x y 2", "variants": "4 x head minus"}))
-        subs.append(Sub("expr-eq-6", drv_expr, {"eq": True, "k": 2, "kmin": 0, "leaves": LEAVES6, "variants": VARIANTS_LIGHT[:2]},
-                        shard_depth=4, bounds={"max_binary_operators_both_sides": 2, "leaves": "x y z 1 2 0.5", "variants": "2 x head minus"}))
-        subs.append(Sub("forms", drv_forms, {"pool": pool2, "n": 2, "nmin": 1, "namings": all_namings, "styles": ["min", "full"],
+        subs.append(Sub("expr", drv_expr, {"eq": False, "k": 3, "kmin": 0, "leaves": LEAVES6, "variants": [V[0], V[3]]},
+                        shard_depth=4, bounds={"max_binary_operators": 3, "leaves": six, "variants": "2 (min/spaced/[x,y,z]; leafy/compact/[x,y,z]) x head minus"}))
+        subs.append(Sub("expr-zyx", drv_expr, {"eq": False, "k": 3, "kmin": 0, "leaves": LEAVES6, "variants": [V[1]], "neg": False},
+                        shard_depth=4, bounds={"max_binary_operators": 3, "leaves": six, "variants": "full parentheses, spaced, names [z,y,x]"}))
+        subs.append(Sub("expr-4", drv_expr, {"eq": False, "k": 4, "kmin": 4, "leaves": LEAVES3, "variants": V[2:3], "neg": False},
+                        shard_depth=5, bounds={"binary_operators": 4, "leaves": three, "variants": "minimal parentheses, compact, names [z,y,x]"}))
+        subs.append(Sub("expr-eq", drv_expr, {"eq": True, "k": 3, "kmin": 0, "leaves": LEAVES3, "variants": V[:1]},
+                        shard_depth=5, bounds={"max_binary_operators_both_sides": 3, "leaves": three, "variants": "1 x head minus"}))
+        subs.append(Sub("expr-eq-6", drv_expr, {"eq": True, "k": 2, "kmin": 0, "leaves": LEAVES6, "variants": V[1:3], "neg": False},
+                        shard_depth=4, bounds={"max_binary_operators_both_sides": 2, "leaves": six, "variants": "2"}))
+        subs.append(Sub("forms", drv_forms, {"pool": pool2, "n": 2, "nmin": 1, "namings": list(NAMINGS), "styles": ["min"],
                                               "values": MAP_VALUES},
-                        shard_depth=2, bounds={"constraints": "1..2", "pool": len(pool2), "forms": FORMS, "mapping_values": MAP_VALUES}))
+                        shard_depth=2, bounds={"constraints": "1..2", "pool": len(pool2), "forms": FORMS, "mapping_values": MAP_VALUES,
+                                               "namings": list(NAMINGS)}))
         subs.append(Sub("forms-3", drv_forms, {"pool": pool3, "n": 3, "nmin": 3, "namings": ["xyz", "zyx", "ticked", "spec-numeric"],
-                                                "styles": ["min"], "values": [0, 1, -2]},
-                        shard_depth=3, bounds={"constraints": 3, "pool": len(pool3), "forms": FORMS}))
-        subs.append(Sub("namings", drv_expr, {"eq": True, "k": 2, "kmin": 0, "leaves": [X, Y, Z, "2"], "variants": VARIANTS_ALL},
-                        shard_depth=4, bounds={"max_binary_operators_both_sides": 2, "leaves": "x y z 2", "variants": "all 42 x head minus"}))
-        subs.append(Sub("unary", drv_unary, {"k": 3, "leaves": LEAVES3, "namings": ["xyz", "ticked"]}, shard_depth=4,
-                        bounds={"max_binary_operators": 3, "leaves": "x y 2", "one unary sign": "every node, - and +, parenthesised and bare"}))
+                                                "styles": ["min", "full"], "values": [0, 1, -2]},
+                        shard_depth=3, bounds={"constraints": 3, "pool": len(pool3), "forms": FORMS, "mapping_values": [0, 1, -2]}))
+        subs.append(Sub("namings", drv_expr, {"eq": True, "k": 1, "kmin": 0, "leaves": [X, Y, Z, "2", "0.5"], "variants": VARIANTS_ALL},
+                        shard_depth=3, bounds={"max_binary_operators_both_sides": 1, "leaves": "x y z 2 0.5", "variants": "all 42 x head minus"}))
+        subs.append(Sub("unary", drv_unary, {"k": 2, "leaves": LEAVES3, "namings": ["xyz", "ticked"]}, shard_depth=4,
+                        bounds={"max_binary_operators": 2, "leaves": three, "one unary sign": "every node, - and +, parenthesised and bare, 4 shapes"}))
         subs.append(Sub("literals", drv_literals, {"literals": LITERALS}, shard_depth=2, bounds={"literals": LITERALS}))
     return subs
